@@ -101,6 +101,10 @@ func (s *SignatureData) RecoverDirect(message []byte, chainID int64) (a *ethtype
 	if err != nil {
 		return nil, err
 	}
+	if s.R == nil || s.S == nil || s.R.Sign() < 0 || s.S.Sign() < 0 || s.R.BitLen() > 256 || s.S.BitLen() > 256 {
+		// FillBytes panics if the value does not fit
+		return nil, fmt.Errorf("invalid R or S value in signature")
+	}
 	s.R.FillBytes(signatureBytes[1:33])
 	s.S.FillBytes(signatureBytes[33:65])
 	pubKey, _, err := ecdsa.RecoverCompact(signatureBytes, message) // uses S256() by default
